@@ -49,4 +49,12 @@ static NS void h_fiber_end(void) {
   sim_check_quiescent();
   sim_finish_ok();
 }
+/* ---- helpers for data-structure harnesses (plain threads under the baton) ---- */
+#include <pthread.h>
+static NS void h_lin_verdict(const char* oracle) {
+  static char msg[3000];
+  int r = hist_check(msg, sizeof msg);
+  if (r == -1) sim_violation(oracle, "%s", msg);
+  if (r == -2) sim_probe("lin_inconclusive", 1);
+}
 #endif
